@@ -70,6 +70,19 @@ def run_case(cs, ctx):
             v['pmax'] = v['pmin']
             v.pop('lq', None)
             ctx.cov('first_side_list_longer_than_1000')
+        if cs % 40 == 11 and v['mp'] in ('ha', 'hr'):
+            # first-side lists of 258..330 entries with dense ties (a tie regularly runs to the end of the list)
+            n2 = rng.randint(258, 330)
+            v.update({'n1': 3, 'n2': n2, 'pmin': rng.randint(258, n2), 'uq': n2 + 5, 'numinst': 1, 't1': rng.choice([1.0, 0.85, 0.5])})
+            v['pmax'] = v['pmin']
+            v.pop('lq', None)
+            ctx.cov('first_side_list_of_258_or_more_entries_with_dense_ties')
+        if cs % 40 == 12 and v['mp'] == 'hr':
+            # one hospital ranked by 258..330 residents, dense ties on the second side
+            n1 = rng.randint(258, 330)
+            v.update({'n1': n1, 'n2': 1, 'pmin': 1, 'pmax': 1, 'uq': n1 + 5, 'numinst': 1, 't2': rng.choice([1.0, 0.85, 0.5]), 'twopl': True})
+            v.pop('lq', None)
+            ctx.cov('second_side_list_of_258_or_more_entries_with_dense_ties')
     outdir = ge.fresh_outdir(ctx.workdir, 'c08')
     argv = ge.to_argv(v, outdir, rng)
     case = {'cs': cs, 'vector': v, 'argv': [a if a != outdir else '<outdir>' for a in argv]}
